@@ -104,7 +104,14 @@ func (g *gen) findCase() {
 	}
 	var got jose.JSONWebKey
 	var err error
+	before := append([]jose.JSONWebKey(nil), jk...) // the caller's list must come back untouched
 	p := drv.Catch(func() { got, err = oidc.FindMatchingKey(kid, use, alg, jk...) })
+	dirty := len(jk) != len(before)
+	for i := range before {
+		if !dirty && (jk[i].KeyID != before[i].KeyID || jk[i].Use != before[i].Use || !sameMaterial(jk[i].Key, before[i].Key)) {
+			dirty = true
+		}
+	}
 	obs := "OPanic"
 	if p == "" {
 		switch {
@@ -126,6 +133,9 @@ func (g *gen) findCase() {
 		default:
 			obs = "OPanic"
 		}
+	}
+	if dirty && strings.HasPrefix(obs, "(OFind ") {
+		obs = "(OFindDirty " + obs[len("(OFind "):]
 	}
 	in := emit.Ctor("IFind", emit.Str(kid), emit.Str(use), emit.Str(alg), tok.JWKList(keys))
 	kt := "nokid"
@@ -852,6 +862,25 @@ func (g *gen) remoteSeqCase() {
 	if r.Chance(1, 6) {
 		all[0].j.Kid = "" // a kid-less published key
 	}
+	// mixed lists: twins of one key family next to keys of other families, mostly
+	// without kid, published together from the start in a random order; tokens of
+	// the different families then follow each other on the one instance
+	mixed := r.Chance(1, 2)
+	if mixed {
+		fams := [][]int{{0, 1}, {2, 3}, {6, 7}}
+		fi := r.IntN(3)
+		gi := (fi + 1 + r.IntN(2)) % 3
+		idx := []int{fams[fi][0], fams[fi][1], fams[gi][r.IntN(2)], 4 + r.IntN(2)}
+		r.Shuffle(3, func(a, b int) { idx[a], idx[b] = idx[b], idx[a] })
+		for i := range all {
+			k := g.pool.Keys[idx[i]]
+			kid := ""
+			if r.Chance(1, 4) {
+				kid = fmt.Sprintf("k%d", i+1)
+			}
+			all[i] = pubKey{tok.JWK{Kid: kid, Use: drv.Pick(r, []string{"sig", "sig", ""}), Key: k}, drv.Pick(r, k.Algs)}
+		}
+	}
 	var allowed []string
 	for _, k := range all {
 		allowed = append(allowed, k.alg)
@@ -863,8 +892,20 @@ func (g *gen) remoteSeqCase() {
 	published := []pubKey{all[0]}
 	ever := []pubKey{all[0]}
 	next := 1
+	if mixed {
+		published = append([]pubKey(nil), all[:3]...)
+		ever = append([]pubKey(nil), all[:3]...)
+		next = 3
+		allowed = nil
+		for _, k := range all {
+			allowed = append(allowed, k.alg)
+		}
+	}
 	ks, ep := tok.NewRemote(skip)
 	n := 3 + r.IntN(3)
+	if mixed {
+		n = 4 + r.IntN(3)
+	}
 	var steps, obs, acts []string
 	now := time.Now().Unix()
 	hang := false
@@ -877,7 +918,11 @@ func (g *gen) remoteSeqCase() {
 		act := "keep"
 		fail := false
 		if st > 0 {
-			switch x := r.IntN(20); {
+			x := r.IntN(20)
+			if mixed && r.Chance(2, 3) {
+				x = 19 // mostly keep: the cache must survive between the tokens
+			}
+			switch {
 			case x < 7 && next < len(all): // rotation: only the new key is published
 				act = "rotate"
 				published = []pubKey{all[next]}
@@ -916,7 +961,7 @@ func (g *gen) remoteSeqCase() {
 				signer = o
 			}
 		}
-		if r.Chance(1, 12) {
+		if r.Chance(1, 12) || (mixed && r.Chance(3, 4)) {
 			kid = ""
 		}
 		c := tok.Claims{Iss: issuer, Sub: "user-1", Aud: []string{"client-a"}, Exp: now + 3600, Iat: now - 5, Extra: fmt.Sprintf("s%d", st)}
@@ -929,7 +974,7 @@ func (g *gen) remoteSeqCase() {
 		t, m := tok.Build(r, spec)
 		if t.Spliceable() && m.Kind == "ok" {
 			fresh := histTok{t, m}
-			if len(hist) > 0 && r.Chance(9, 20) {
+			if len(hist) > 0 && r.Chance(9, 20) && !(mixed && r.Chance(2, 3)) {
 				var how string
 				t, m, how = spliceFrom(r, fresh, hist)
 				derived[how] = true
@@ -968,7 +1013,7 @@ func (g *gen) remoteSeqCase() {
 		o = "OPanic" // a panic, or a key set that never became idle again
 	}
 	in := emit.Ctor("IRemoteSeq", emit.StrList(allowed), emit.Bool(skip), emit.List(steps))
-	tags := []string{"kind=remoteseq", fmt.Sprintf("steps=%d", n), fmt.Sprintf("skip=%v", skip)}
+	tags := []string{"kind=remoteseq", fmt.Sprintf("steps=%d", n), fmt.Sprintf("skip=%v", skip), fmt.Sprintf("mixed=%v", mixed)}
 	seen := map[string]bool{}
 	for _, a := range acts {
 		if !seen[a] {
@@ -1120,9 +1165,22 @@ func (g *gen) instanceSeqCase(kind string) {
 	}
 	alg1 := drv.Pick(r, algPool)
 	key1 := drv.Pick(r, g.pool.ForAlg(alg1))
+	// kid-less set-up (published key sets only): no key and no token carries a kid;
+	// the second signer belongs to ANOTHER key family than the first and its twin is
+	// published as well, in random order - the first signer's tokens are unambiguous,
+	// the twins' tokens are not, whatever was looked up before on this instance
+	kidless := !fixedDefault && r.Chance(2, 5)
 	alg2 := alg1
 	if r.Bool() {
 		alg2 = drv.Pick(r, algPool)
+	}
+	if kidless {
+		for tries := 0; tries < 50; tries++ {
+			alg2 = drv.Pick(r, algPool)
+			if f := g.pool.ForAlg(alg2); len(f) >= 2 && f[0].Kty != key1.Kty {
+				break
+			}
+		}
 	}
 	key2 := g.pool.Other(r, key1, alg2)
 	if key2 == nil {
@@ -1149,10 +1207,21 @@ func (g *gen) instanceSeqCase(kind string) {
 	if client == other {
 		other = "client-a"
 	}
-	j1 := tok.JWK{Kid: "k1", Use: drv.Pick(r, []string{"sig", "sig", ""}), Key: key1}
-	j2 := tok.JWK{Kid: "k2", Use: "sig", Key: key2}
+	kid1, kid2 := "k1", "k2"
+	if kidless {
+		kid1, kid2 = "", ""
+	}
+	j1 := tok.JWK{Kid: kid1, Use: drv.Pick(r, []string{"sig", "sig", ""}), Key: key1}
+	j2 := tok.JWK{Kid: kid2, Use: "sig", Key: key2}
 	pub := []tok.JWK{j1, j2}
-	if r.Chance(1, 3) {
+	var twin *tok.Key
+	if kidless {
+		if tw := g.pool.Other(r, key2, alg2); tw != nil && tw != key1 && r.Chance(5, 6) {
+			twin = tw
+			pub = append(pub, tok.JWK{Kid: "", Use: "sig", Key: tw})
+		}
+		r.Shuffle(len(pub), func(a, b int) { pub[a], pub[b] = pub[b], pub[a] })
+	} else if r.Chance(1, 3) {
 		pub = append(pub, g.randomJWK(false))
 		pub[2].Kid = "k7"
 	}
@@ -1249,14 +1318,17 @@ func (g *gen) instanceSeqCase(kind string) {
 	o3 := opts
 	o3.Reverse = !o3.Reverse
 	fam := []histTok{
-		sign(key1, alg1, "k1", "none", c, opts),
-		sign(key1, alg1, "k1", "none", c2, opts),
-		sign(key2, alg2, "k2", "none", drv.Pick(r, []tok.Claims{c, c2, c3}), opts),
-		sign(key1, alg1, drv.Pick(r, []string{"k1", "k1", ""}), drv.Pick(r, []string{"none", "typ"}), c3, o3),
+		sign(key1, alg1, kid1, "none", c, opts),
+		sign(key1, alg1, kid1, "none", c2, opts),
+		sign(key2, alg2, kid2, "none", drv.Pick(r, []tok.Claims{c, c2, c3}), opts),
+		sign(key1, alg1, drv.Pick(r, []string{kid1, kid1, ""}), drv.Pick(r, []string{"none", "typ"}), c3, o3),
+	}
+	if twin != nil { // the twin signs as well
+		fam = append(fam, sign(twin, alg2, "", "none", drv.Pick(r, []tok.Claims{c, c2}), opts))
 	}
 	known := len(fam)
 	if key3 != nil {
-		fam = append(fam, sign(key3, alg3, "k1", "none", c2, opts))
+		fam = append(fam, sign(key3, alg3, kid1, "none", c2, opts))
 	}
 
 	// the ONE instance
@@ -1300,7 +1372,14 @@ func (g *gen) instanceSeqCase(kind string) {
 	var steps, obs, hows []string
 	amb, hang := false, false
 	pan := ""
-	for st := 0; st < n && pan == "" && !hang; st++ {
+	type seqStep struct {
+		t      tok.Token
+		m      tok.Middle
+		o, pan string
+		t0, t1 int64
+	}
+	var sq []*seqStep
+	for st := 0; st < n; st++ {
 		var t tok.Token
 		var m tok.Middle
 		how := ""
@@ -1341,10 +1420,19 @@ func (g *gen) instanceSeqCase(kind string) {
 			how = "cross"
 		}
 		hows = append(hows, how)
+		sq = append(sq, &seqStep{t: t, m: m})
+	}
+	// the calls: one after the other, or (never on a cold remote key set, whose
+	// concurrent first download is C13's subject) all at the same time - the
+	// answers may not depend on it
+	parallel := (ks.Kind != "remote" || len(ks.Cached) > 0) && r.Chance(1, 3)
+	exec := func(s *seqStep) {
+		t := s.t
 		ctx, cancel := context.WithTimeout(context.Background(), 5*time.Second)
+		defer cancel()
 		var o string
-		t0 := time.Now().UnixNano()
-		pan = drv.Catch(func() {
+		s.t0 = time.Now().UnixNano()
+		s.pan = drv.Catch(func() {
 			switch kind {
 			case "rp":
 				out, err := rp.VerifyIDToken[*oidc.IDTokenClaims](ctx, t.Raw, rpV)
@@ -1374,16 +1462,56 @@ func (g *gen) instanceSeqCase(kind string) {
 				}
 			}
 		})
-		t1 := time.Now().UnixNano()
-		cancel()
-		if ksObj != nil && !tok.WaitIdle(ksObj) {
-			hang = true
+		s.t1 = time.Now().UnixNano()
+		s.o = o
+	}
+	if parallel {
+		start := make(chan struct{})
+		done := make(chan struct{}, len(sq))
+		for _, s := range sq {
+			go func(s *seqStep) {
+				<-start
+				exec(s)
+				done <- struct{}{}
+			}(s)
 		}
-		if tok.TimeView(v, m.C, t0) != tok.TimeView(v, m.C, t1) {
-			amb = true
+		close(start)
+		for range sq {
+			select {
+			case <-done:
+			case <-time.After(8 * time.Second):
+				hang = true
+			}
+			if hang {
+				break
+			}
 		}
-		obs = append(obs, o)
-		steps = append(steps, emit.Ctor("mkVStep", t.Coq(), m.Coq(), emit.Z(t0), emit.Z(t1)))
+	} else {
+		for _, s := range sq {
+			exec(s)
+			if s.pan != "" {
+				break
+			}
+			if ksObj != nil && !tok.WaitIdle(ksObj) {
+				hang = true
+				break
+			}
+		}
+	}
+	if !hang {
+		for _, s := range sq {
+			if s.pan != "" {
+				pan = s.pan
+			}
+			if s.t1 == 0 { // not run: an earlier call panicked
+				continue
+			}
+			if tok.TimeView(v, s.m.C, s.t0) != tok.TimeView(v, s.m.C, s.t1) {
+				amb = true
+			}
+			obs = append(obs, s.o)
+			steps = append(steps, emit.Ctor("mkVStep", s.t.Coq(), s.m.Coq(), emit.Z(s.t0), emit.Z(s.t1)))
+		}
 	}
 	if amb {
 		g.amb++
@@ -1394,7 +1522,7 @@ func (g *gen) instanceSeqCase(kind string) {
 		o = "OPanic"
 	}
 	in := emit.Ctor("IVerifySeq", kindCoq, v.Coq(), ks.Coq(), emit.List(steps))
-	tags := []string{"kind=instanceseq", "v=" + kind, "ks=" + ks.Kind, fmt.Sprintf("steps=%d", n), "alg=" + alg1, "alg2=" + alg2}
+	tags := []string{"kind=instanceseq", "v=" + kind, "ks=" + ks.Kind, fmt.Sprintf("steps=%d", n), "alg=" + alg1, "alg2=" + alg2, fmt.Sprintf("kidless=%v", kidless), fmt.Sprintf("parallel=%v", parallel)}
 	if ks.Kind == "remote" {
 		tags = append(tags, fmt.Sprintf("warm=%v", len(ks.Cached) > 0))
 	}
@@ -1412,6 +1540,212 @@ func (g *gen) instanceSeqCase(kind string) {
 		}
 	}
 	g.w.Add(emit.Case{Input: tok.Share(in), Observed: o, Tags: tags, Human: map[string]any{"verifier": kind, "steps": hows}})
+}
+
+// tenantsCase: ONE op.NewProvider with a per-request issuer and its DEFAULT key
+// set over a storage whose KeySet depends on the issuer in the context (two or
+// three tenants with their own signing keys). 2-3 verifications; with overlap the
+// first one is held inside Storage.KeySet while the others are started, then
+// released. Tokens: genuine for the call's tenant, or naming the call's tenant
+// but signed with ANOTHER tenant's key (under that tenant's or the own kid), or
+// naming another tenant. Every wait has a time-out that ends in OPanic.
+func (g *gen) tenantsCase() {
+	r := g.r
+	hint := r.Bool()
+	tenants := []string{"https://tenant-a.example.com", "https://tenant-b.example.com", "https://tenant-c.example.com"}
+	nt := 2 + r.IntN(2)
+	tenants = tenants[:nt]
+	algPool := []string{"RS256", "PS256", "ES256", "EdDSA", "RS384"}
+	type tkey struct {
+		j   tok.JWK
+		alg string
+	}
+	keys := map[string]tkey{}
+	st := &tok.TenantStorage{Keys: map[string][]tok.JWK{}}
+	used := map[*tok.Key]bool{}
+	var allowed []string
+	sameKid := r.Bool()
+	for i, tn := range tenants {
+		alg := drv.Pick(r, algPool)
+		var k *tok.Key
+		for _, c := range g.pool.ForAlg(alg) {
+			if !used[c] {
+				k = c
+			}
+		}
+		if k == nil {
+			alg = "RS256"
+			k = g.pool.Keys[i%2]
+			if used[k] {
+				alg, k = "ES256", g.pool.Keys[2+i%2]
+			}
+		}
+		used[k] = true
+		kid := "k1"
+		if !sameKid {
+			kid = fmt.Sprintf("kid-%c", 'a'+i)
+		}
+		keys[tn] = tkey{tok.JWK{Kid: kid, Use: "sig", Key: k}, alg}
+		st.Keys[tn] = []tok.JWK{keys[tn].j}
+		allowed = append(allowed, alg)
+	}
+	overlap := r.Chance(3, 4)
+	n := 2 + r.IntN(2)
+	type call struct {
+		iss  string
+		t    tok.Token
+		m    tok.Middle
+		how  string
+		out  string
+		t0   int64
+		t1   int64
+		done chan struct{}
+		pan  string
+	}
+	now := time.Now().Unix()
+	mk := func(iss, signerTenant, kidTenant, tokIss string) (tok.Token, tok.Middle) {
+		sk := keys[signerTenant]
+		c := tok.Claims{Iss: tokIss, Sub: "user-1", Aud: []string{"client-a"}, Azp: "client-a", Exp: now + 3600, Iat: now - 10, ClientID: "client-a", Extra: fmt.Sprintf("t%d", r.IntN(10000))}
+		return tok.Build(r, tok.BuildSpec{Signer: sk.j.Key, Alg: sk.alg, Kid: keys[kidTenant].j.Kid, Claims: c, Payload: c.Payload(g.payloadOpts("ext")), Mut: "none"})
+	}
+	calls := make([]*call, n)
+	for i := range calls {
+		iss := drv.Pick(r, tenants)
+		if i > 0 && r.Chance(3, 4) { // mostly another tenant than the held call's
+			for iss == calls[0].iss {
+				iss = drv.Pick(r, tenants)
+			}
+		}
+		c := &call{iss: iss, done: make(chan struct{})}
+		// the "other" tenant of a forged token: mostly the held call's (its keys are in flight)
+		otherT := drv.Pick(r, tenants)
+		for otherT == iss {
+			otherT = drv.Pick(r, tenants)
+		}
+		if i > 0 && calls[0].iss != iss && r.Chance(3, 4) {
+			otherT = calls[0].iss
+		}
+		x := r.IntN(10)
+		if i == 0 {
+			x = 0 // the held call reaches the storage: genuine token of its tenant
+		}
+		switch {
+		case x < 4:
+			c.t, c.m = mk(iss, iss, iss, iss)
+			c.how = "genuine"
+		case x < 7: // names this tenant, signed with another tenant's key under THAT tenant's kid
+			c.t, c.m = mk(iss, otherT, otherT, iss)
+			c.how = "foreign_key"
+		case x < 9: // ... under this tenant's kid
+			c.t, c.m = mk(iss, otherT, iss, iss)
+			c.how = "foreign_key_own_kid"
+		default: // a genuine token of another tenant presented here
+			c.t, c.m = mk(iss, otherT, otherT, otherT)
+			c.how = "foreign_token"
+		}
+		calls[i] = c
+	}
+	if overlap {
+		st.Gate = tok.NewGate(calls[0].iss)
+	}
+	var aOpts, hOpts []op.Option
+	aOpts = append(aOpts, op.WithAccessTokenVerifierOpts(op.WithSupportedAccessTokenSigningAlgorithms(allowed...)))
+	hOpts = append(hOpts, op.WithIDTokenHintVerifierOpts(op.WithSupportedIDTokenHintSigningAlgorithms(allowed...)))
+	var prov *op.Provider
+	pan := drv.Catch(func() {
+		var err error
+		prov, err = op.NewProvider(&op.Config{CryptoKey: [32]byte{1}}, st, op.IssuerFromHost(""), append(aOpts, hOpts...)...)
+		if err != nil {
+			panic("NewProvider: " + err.Error())
+		}
+	})
+	run := func(c *call) {
+		defer close(c.done)
+		c.pan = drv.Catch(func() {
+			ctx, cancel := context.WithTimeout(op.ContextWithIssuer(context.Background(), c.iss), 5*time.Second)
+			defer cancel()
+			if hint {
+				out, err := op.VerifyIDTokenHint[*oidc.IDTokenClaims](ctx, c.t.Raw, prov.IDTokenHintVerifier(ctx))
+				c.out = idOutcome(out, err)
+			} else {
+				out, err := op.VerifyAccessToken[*oidc.AccessTokenClaims](ctx, c.t.Raw, prov.AccessTokenVerifier(ctx))
+				if out != nil {
+					cl, a := tok.FromAccessToken(out)
+					c.out = tok.Outcome(&cl, a, err)
+				} else {
+					c.out = tok.Outcome(nil, "", err)
+				}
+			}
+		})
+		c.t1 = time.Now().UnixNano()
+	}
+	stuck := false
+	if pan == "" {
+		for i, c := range calls {
+			c.t0 = time.Now().UnixNano()
+			go run(c)
+			if i == 0 && overlap {
+				select { // the held call must be inside Storage.KeySet before the others start
+				case <-st.Gate.Entered:
+				case <-c.done:
+				case <-time.After(2 * time.Second):
+					stuck = true
+				}
+				continue
+			}
+			wait := 5 * time.Second
+			if overlap {
+				wait = 100 * time.Millisecond // a call that joined the held one finishes only after the release
+			}
+			select {
+			case <-c.done:
+			case <-time.After(wait):
+				if !overlap {
+					stuck = true
+				}
+			}
+		}
+		if overlap {
+			close(st.Gate.Release)
+		}
+		for _, c := range calls {
+			select {
+			case <-c.done:
+			case <-time.After(5 * time.Second):
+				stuck = true
+			}
+		}
+		if overlap && st.Gate.TimedOut.Load() {
+			stuck = true
+		}
+	}
+	var steps, obs, hows []string
+	for _, c := range calls {
+		if c.pan != "" {
+			pan = c.pan
+		}
+		if !stuck && pan == "" && tok.TimeView(tok.VCfg{}, c.m.C, c.t0) != tok.TimeView(tok.VCfg{}, c.m.C, c.t1) {
+			g.amb++
+			return
+		}
+		obs = append(obs, c.out)
+		hows = append(hows, c.how)
+		steps = append(steps, emit.Ctor("mkTCall", emit.Str(c.iss), emit.Some(tok.JWKList(st.Keys[c.iss])), c.t.Coq(), c.m.Coq(), emit.Z(c.t0), emit.Z(c.t1)))
+	}
+	o := emit.Ctor("OVerifySeq", emit.List(obs))
+	if pan != "" || stuck {
+		o = "OPanic" // a panic, or a verification that did not come back in time
+	}
+	in := emit.Ctor("ITenants", emit.Bool(hint), emit.StrList(allowed), emit.Bool(overlap), emit.List(steps))
+	tags := []string{"kind=tenants", fmt.Sprintf("verifier_hint=%v", hint), fmt.Sprintf("overlap=%v", overlap), fmt.Sprintf("tenants=%d", nt), fmt.Sprintf("calls=%d", n), fmt.Sprintf("same_kid=%v", sameKid)}
+	seen := map[string]bool{}
+	for _, h := range hows {
+		if !seen[h] {
+			seen[h] = true
+			tags = append(tags, "has_"+h+"=1")
+		}
+	}
+	g.w.Add(emit.Case{Input: tok.Share(in), Observed: o, Tags: tags, Human: map[string]any{"calls": hows, "overlap": overlap}})
 }
 
 // ---------------------------------------------------------------- provider options
@@ -1627,11 +1961,11 @@ func main() {
 	g.pool = tok.NewPool(g.r)
 	tok.SetWarm(g.pool)
 	g.w = emit.NewWriter(cfg.Out, "C02_spec", shardSize(cfg), cfg.Only)
-	n := cfg.Count(840, 21000)
+	n := cfg.Count(900, 22500)
 	kinds := []string{"rp", "at", "hint", "jwt", "ro"}
 	seqKinds := []string{"rp", "at", "rp", "hint", "jwt", "rp", "ro"} // the stateful key set most often
 	for i := 0; i < n; i++ {
-		switch i % 14 {
+		switch i % 15 {
 		case 0:
 			g.findCase()
 		case 1, 2:
@@ -1643,9 +1977,11 @@ func main() {
 		case 10, 11:
 			g.providerCase()
 		case 12, 13:
-			g.instanceSeqCase(seqKinds[(i/14+3*(i%14-12))%len(seqKinds)])
+			g.instanceSeqCase(seqKinds[(i/15+3*(i%15-12))%len(seqKinds)])
+		case 14:
+			g.tenantsCase()
 		default:
-			g.verifyCase(kinds[i%14-3])
+			g.verifyCase(kinds[i%15-3])
 		}
 	}
 	err := g.w.Close(emit.Meta{Property: "C02", Tier: cfg.Tier, Seed: cfg.Seed,
